@@ -759,6 +759,9 @@ impl Prop for C22 {
         let Some(ir) = args.get(3) else { return vec![] };
         let f = ir_facts(ir);
         let rows = e.answer.starts_with("(rows (row");
+        if let Some(info) = &e.panic_info {
+            return vec![format!("impl-{}", panic_key(info))];
+        }
         let is_base = !e.tags.iter().any(|t| t.starts_with("role:") && t != "role:base" && t != "role:base-nolimits");
         let mut t = vec![];
         if f.min_eligible > 0 {
